@@ -137,6 +137,7 @@ fn spaces(id: &str, tier: Tier) -> Vec<Box<dyn Space>> {
             v.push(Box::new(sorted_run_family()));
             v.push(Box::new(r8_metadata_family()));
             v.push(Box::new(late_member_family()));
+            v.push(Box::new(file_header_family()));
             v.push(Box::new(unicode_family()));
             if t {
                 v.push(Box::new(ms_a_depth3()));
